@@ -4,6 +4,7 @@ import (
 	"errors"
 
 	"github.com/nspcc-dev/neofs-node/pkg/local_object_storage/writecache"
+	"github.com/nspcc-dev/neofs-node/pkg/util/verifhook"
 	apistatus "github.com/nspcc-dev/neofs-sdk-go/client/status"
 	cid "github.com/nspcc-dev/neofs-sdk-go/container/id"
 	oid "github.com/nspcc-dev/neofs-sdk-go/object/id"
@@ -40,10 +41,13 @@ func (s *Shard) deleteObjs(cnr cid.ID, addrs []oid.ID) error {
 		}
 	}
 
+	verifhook.Point("shard.deleteObjs.afterWC", cnr, addrs)
+
 	res, diff, err := s.metaBase.Delete(cnr, addrs)
 	if err != nil {
 		return err // stop on metabase error ?
 	}
+	verifhook.Point("shard.deleteObjs.afterMeta", cnr, addrs)
 
 	if hasWriteCache {
 		for _, id := range res[len(addrs):] { // the rest are addrs, removed above
